@@ -128,7 +128,11 @@ def stepLine (_ : Unit) (line : String) : Unit × String :=
             | none => "J:ok"
             | some clause => "J:" ++ clause
           | none => "J:unparsable-observation"
-        let tag := match Supv.Spec.C15.causeTag t with | some x => x | none => "-"
+        -- a formula nested deeper than the interpreter stack allows is answered "major failure" whatever it denotes
+        let deep := match t with
+          | some (.expr f) => (match evaluate L ps stack f with | .error .recursion => true | _ => false)
+          | _ => false
+        let tag := if deep then "beyond-interpreter-stack" else match Supv.Spec.C15.causeTag t with | some x => x | none => "-"
         ((), s!"{m} | {verdict} | T:{tag}")
       | _, _, _, _ => ((), "bad-case | J:ok | T:-")
     | _ => ((), "bad-op | J:ok | T:-")
